@@ -2,7 +2,7 @@
 import mdibcheck
 import mdibgen
 
-FILES = ('70041_MDIB_Final.xml',)
+FILES = ('70041_MDIB_Final.xml', 'mdib_two_mds.xml')
 
 
 def run(ctx):
@@ -32,9 +32,12 @@ def run(ctx):
             ctx.broken('theorem', 'grep gate', hits)
         ctx.coqchk('SDC.Props.C01')
     return ctx.finish(
-        rule='generated histories over all transaction kinds (metric, alert, component, operational, context, waveform, '
-             'descriptor create/update/delete/re-create, location change; both interfaces) on the loop-back provider + '
-             'consumer; after every transaction: provider tables vs provider model, wire reports (parsed by the real '
+        rule='crafted scenario histories (several delete / re-create cycles of one handle, a new MDS created at run time by '
+             'a transaction that only creates a parent-less descriptor, its subtree, removal and re-creation, transactions '
+             'whose states belong to two MDSs in alternating order, stale entities, context descriptors with several states) '
+             'followed by random tails, plus random histories over all transaction kinds (metric, alert, component, '
+             'operational, context, waveform, descriptor create/update/delete/re-create, location change; both interfaces) '
+             'on single- and two-MDS MDIBs on the loop-back provider + consumer; after every transaction: provider tables vs provider model, wire reports (parsed by the real '
              'reader) fed to the consumer model vs the real ConsumerMdib tables and notifications, and the mirror oracle '
              '(provider snapshot == consumer snapshot, notifications name exactly the changed entities); distinct = '
              'distinct implementation traces',
